@@ -320,7 +320,7 @@ func run(c *hc.Ctx) error {
 	add := bt.Add
 
 	// ---- 1. containers
-	n := c.N(8000, 120000)
+	n := c.N(12000, 120000)
 	bigEvery := c.N(4000, 3000)
 	for i := 0; i < n; i++ {
 		big := 0
@@ -403,7 +403,7 @@ func run(c *hc.Ctx) error {
 	}
 
 	// ---- 2. malformed containers
-	m := c.N(8000, 120000)
+	m := c.N(12000, 120000)
 	for i := 0; i < m; i++ {
 		var b bin.Buffer
 		id := hc.Pick[uint32](r, proto.MessageContainerTypeID, proto.MessageContainerTypeID, proto.MessageContainerTypeID, proto.GZIPTypeID, uint32(r.U64()))
@@ -478,7 +478,7 @@ func run(c *hc.Ctx) error {
 	}
 
 	// ---- 3. results
-	nr := c.N(6000, 100000)
+	nr := c.N(10000, 100000)
 	for i := 0; i < nr; i++ {
 		x := proto.Result{RequestMessageID: i64(r), Result: genBody(r, 0)}
 		if i%4000 == 1 {
@@ -517,7 +517,7 @@ func run(c *hc.Ctx) error {
 	}
 
 	// ---- 4. unencrypted messages
-	nu := c.N(6000, 100000)
+	nu := c.N(10000, 100000)
 	for i := 0; i < nu; i++ {
 		x := proto.UnencryptedMessage{MessageID: i64(r), MessageData: genBody(r, 0)}
 		var b bin.Buffer
